@@ -1124,6 +1124,15 @@ func (vm *VirtualMachine) cloneCallAsync(
 	if err != nil {
 		return nil, err
 	}
+	// The spawned function runs on the clone without going through start(),
+	// so halt the clone when the context is cancelled, as start() does for
+	// the VM that runs the main code
+	if doneChan := ctx.Done(); doneChan != nil {
+		go func() {
+			<-doneChan
+			atomic.StoreInt32(&clone.halt, 1)
+		}()
+	}
 	return object.NewThread(clone.initContext(ctx), fn, args), nil
 }
 
